@@ -196,25 +196,27 @@ Proof.
     destruct (nth_error ms i) as [m|] eqn:Nm; [|discriminate].
     cbn [windows_ok] in Hw. apply Bool.andb_true_iff in Hw. destruct Hw as [Hrow _].
     rewrite forallb_forall in Hrow.
-    destruct (read (s_db s) m) as [p|] eqn:Rd; inversion Hs; subst s'; clear Hs;
-      constructor; cbn [s_db s_pend s_acked s_failed]; auto.
-    + intros j q [H|H]; [inversion H; subst; exists m; auto | auto].
-    + cbn [map fst]. constructor; assumption.
-    + assert (K : forall j q, In (j, q) (s_pend s) -> p_row p <> p_row q).
-      { intros j q Hj. destruct (Isnap j q Hj) as [mj [Nj Rj]].
-        apply read_wf in Rd. apply read_wf in Rj. destruct Rd as [_ Rd]. destruct Rj as [_ Rj].
-        assert (Jo : In j open) by (apply Iopen; apply in_map_iff; exists (j, q); auto).
-        specialize (Hrow j Jo). unfold row_of in Hrow. rewrite Nj, Nm in Hrow. cbn [opt_eqb] in Hrow.
-        apply Bool.negb_true_iff, N.eqb_neq in Hrow. congruence. }
-      intros a pa b pb [Ha|Ha] [Hb|Hb] Hne.
-      * inversion Ha; inversion Hb; subst. congruence.
-      * inversion Ha; subst. eapply K; eauto.
-      * inversion Hb; subst. intros E. symmetry in E. revert E. eapply K; eauto.
-      * eapply Irows; eauto.
-    + cbn [map fst]. intros j [<-|Hj]; [left; reflexivity | right; apply Iopen, Hj].
-    + intros j Hj. cbn [map fst]. intros [<-|Hk]; [contradiction | eapply Ifail; eauto].
-    + intros j Hj. right. apply Iopen, Hj.
-    + intros j Hj. apply in_app_or in Hj. destruct Hj as [Hj|[<-|[]]]; auto.
+    destruct (read (s_db s) m) as [p|] eqn:Rd; inversion Hs; subst s'; clear Hs.
+    { constructor; cbn [s_db s_pend s_acked s_failed].
+      - assumption.
+      - intros j q [H|H]; [inversion H; subst; exists m; auto | auto].
+      - cbn [map fst]. constructor; assumption.
+      - assert (K : forall j q, In (j, q) (s_pend s) -> p_row p <> p_row q).
+        { intros j q Hj. destruct (Isnap j q Hj) as [mj [Nj Rj]].
+          apply read_wf in Rd. apply read_wf in Rj. destruct Rd as [_ Rd]. destruct Rj as [_ Rj].
+          assert (Jo : In j open) by (apply Iopen; apply in_map_iff; exists (j, q); auto).
+          specialize (Hrow j Jo). unfold row_of in Hrow. rewrite Nj, Nm in Hrow. cbn [opt_eqb] in Hrow.
+          apply Bool.negb_true_iff, N.eqb_neq in Hrow. congruence. }
+        intros a pa b pb [Ha|Ha] [Hb|Hb] Hne.
+        + inversion Ha; inversion Hb; subst. congruence.
+        + inversion Ha; subst. eapply K; eauto.
+        + inversion Hb; subst. intros E. symmetry in E. revert E. eapply K; eauto.
+        + eapply Irows; eauto.
+      - cbn [map fst]. intros j [<-|Hj]; [left; reflexivity | right; apply Iopen, Hj].
+      - intros j Hj. cbn [map fst]. intros [<-|Hk]; [contradiction | eapply Ifail; eauto]. }
+    { constructor; cbn [s_db s_pend s_acked s_failed]; auto.
+      - intros j Hj. right. apply Iopen, Hj.
+      - intros j Hj. apply in_app_or in Hj. destruct Hj as [Hj|[<-|[]]]; auto. }
   - (* V i *)
     destruct (memn i (s_failed s)); [inversion Hs; subst; constructor; auto|].
     destruct (memn i (map fst (s_pend s)) && negb (memn i (s_fifo s))); [|discriminate].
@@ -256,10 +258,12 @@ Qed.
 
 Lemma inv_init : forall ms d0, inv ms d0 [] (init d0).
 Proof.
-  intros. constructor; cbn [init s_db s_pend s_acked s_failed fold_left map]; auto.
+  intros. constructor; cbn [init s_db s_pend s_acked s_failed fold_left map].
+  - reflexivity.
   - intros i p [].
   - constructor.
   - intros i p j q [].
+  - intros i [].
   - intros i [].
 Qed.
 
@@ -273,4 +277,469 @@ Proof.
   intros d ms sigma s Hr Hw. unfold run_sched in Hr.
   destruct (run_inv ms d sigma [] (init d) s (inv_init ms d) Hw Hr) as [open' I].
   apply I.
+Qed.
+
+(* ------------------------------------------------------------------ T2: the statement on run_C16 / spec_C16 *)
+
+(* --- every order is enumerated --- *)
+Lemma insert_all_In : forall x l1 l2, In (l1 ++ x :: l2) (insert_all x (l1 ++ l2)).
+Proof.
+  induction l1 as [|y t IH]; intros l2; cbn [app].
+  - destruct l2; cbn [insert_all]; left; reflexivity.
+  - cbn [insert_all]. right. apply in_map. apply IH.
+Qed.
+Lemma perms_complete : forall l pi, Permutation l pi -> In pi (perms l).
+Proof.
+  induction l as [|x t IH]; intros pi HP; cbn [perms].
+  - apply Permutation_nil in HP. subst. left; reflexivity.
+  - assert (HP' := Permutation_sym HP).
+    destruct (Permutation_vs_cons_inv HP') as [l1 [l2 E]]. subst pi.
+    apply Permutation_cons_app_inv in HP.
+    apply in_flat_map. exists (l1 ++ l2). split; [apply IH, HP | apply insert_all_In].
+Qed.
+
+(* --- chunks --- *)
+Lemma firstn_len_app : forall A (c r : list A), firstn (length c) (c ++ r) = c.
+Proof. induction c as [|a t IH]; intros r; cbn [length firstn app]; [reflexivity | rewrite IH; reflexivity]. Qed.
+Lemma skipn_len_app : forall A (c r : list A), skipn (length c) (c ++ r) = r.
+Proof. induction c as [|a t IH]; intros r; cbn [length skipn app]; [reflexivity | apply IH]. Qed.
+
+Lemma split_join : forall l fuel, (length l < fuel)%nat -> split_chunks fuel (join l) = Some l.
+Proof.
+  induction l as [|c t IH]; intros fuel Hf.
+  - destruct fuel; reflexivity.
+  - unfold join. cbn [flat_map]. fold (join t). cbn [app].
+    destruct fuel as [|f]; [cbn [length] in Hf; lia|]. cbn [split_chunks].
+    rewrite Nat2Z.id.
+    assert (E1 : (Z.of_nat (length c) <? 0) = false) by (apply Z.ltb_ge; lia).
+    assert (E2 : (length (c ++ join t) <? length c)%nat = false)
+      by (apply Nat.ltb_ge; rewrite app_length; lia).
+    rewrite E1, E2. cbn [orb]. rewrite skipn_len_app, firstn_len_app.
+    rewrite IH by (cbn [length] in Hf; lia). reflexivity.
+Qed.
+Lemma join_length : forall l, (length l <= length (join l))%nat.
+Proof.
+  induction l as [|c t IH]; [cbn; lia|].
+  unfold join. cbn [flat_map]. fold (join t). cbn [length app]. rewrite app_length. lia.
+Qed.
+
+(* --- row identities never change --- *)
+Definition ids (d : db) : list N := map r_id (rows d).
+Lemma ids_write : forall p d, ids (write p d) = ids d.
+Proof.
+  intros p d. unfold ids, write; cbn [rows]. destruct (p_node p) as [n|]; [|reflexivity].
+  rewrite map_map. apply map_ext. intros r. destruct (N.eqb (r_id r) (r_id n)) eqn:E; [|reflexivity].
+  apply N.eqb_eq in E. congruence.
+Qed.
+Lemma find_row_none : forall x d, find_row x d = None <-> ~ In x (ids d).
+Proof.
+  intros x d. unfold find_row, ids. induction (rows d) as [|r t IH]; cbn [find map In]; [tauto|].
+  destruct (N.eqb (r_id r) x) eqn:E.
+  - apply N.eqb_eq in E. split; [discriminate | intros H; exfalso; apply H; left; assumption].
+  - apply N.eqb_neq in E. rewrite IH. tauto.
+Qed.
+Definition has_row (ms : list mutation) (d : db) (i : nat) : bool :=
+  match nth_error ms i with
+  | Some m => match find_row (m_row m) d with Some _ => true | None => false end
+  | None => false
+  end.
+Lemma read_none_iff : forall d m, read d m = None <-> find_row (m_row m) d = None.
+Proof. intros d m. unfold read. destruct (find_row (m_row m) d); split; intros; congruence. Qed.
+Lemma has_row_ids : forall ms d d' i, ids d = ids d' -> has_row ms d i = has_row ms d' i.
+Proof.
+  intros ms d d' i E. unfold has_row. destruct (nth_error ms i) as [m|]; [|reflexivity].
+  destruct (find_row (m_row m) d) eqn:F; destruct (find_row (m_row m) d') eqn:F'; try reflexivity.
+  - apply find_row_none in F'. rewrite <- E in F'. apply find_row_none in F'. congruence.
+  - apply find_row_none in F. rewrite E in F. apply find_row_none in F. congruence.
+Qed.
+
+(* --- bookkeeping invariant of any run (no assumption on the schedule) --- *)
+Record inv2 (ms : list mutation) (d0 : db) (s : st) : Prop := {
+  i2_ids : ids (s_db s) = ids d0;
+  i2_nk : NoDup (map fst (s_pend s));
+  i2_na : NoDup (s_acked s);
+  i2_nf : NoDup (s_failed s);
+  i2_ka : forall i, In i (map fst (s_pend s)) -> ~ In i (s_acked s);
+  i2_kf : forall i, In i (map fst (s_pend s)) -> ~ In i (s_failed s);
+  i2_af : forall i, In i (s_acked s) -> ~ In i (s_failed s);
+  i2_hk : forall i, In i (map fst (s_pend s)) -> has_row ms d0 i = true;
+  i2_ha : forall i, In i (s_acked s) -> has_row ms d0 i = true;
+  i2_hf : forall i, In i (s_failed s) -> has_row ms d0 i = false /\ nth_error ms i <> None }.
+
+Lemma nodup_snoc : forall (l : list nat) i, NoDup l -> ~ In i l -> NoDup (l ++ [i]).
+Proof.
+  induction l as [|a t IH]; intros i Hn Hi; cbn [app].
+  - constructor; [intros [] | constructor].
+  - inversion Hn; subst. constructor.
+    + intros H. apply in_app_or in H. destruct H as [H|[H|[]]]; [contradiction|].
+      subst. apply Hi. left. reflexivity.
+    + apply IH; [assumption | intros H; apply Hi; right; assumption].
+Qed.
+Lemma nodup_app2 : forall (a b : list nat), NoDup a -> NoDup b -> (forall x, In x a -> ~ In x b) -> NoDup (a ++ b).
+Proof.
+  induction a as [|x t IH]; intros b Ha Hb Hd; cbn [app]; [assumption|].
+  inversion Ha; subst. constructor.
+  - intros H. apply in_app_or in H. destruct H as [H|H]; [contradiction|]. apply (Hd x); [left; reflexivity | assumption].
+  - apply IH; auto. intros y Hy. apply Hd. right. assumption.
+Qed.
+
+Lemma inv2_init : forall ms d0, inv2 ms d0 (init d0).
+Proof.
+  intros. constructor; cbn [init s_db s_pend s_acked s_failed map];
+    try reflexivity; try (intros i []); constructor.
+Qed.
+
+Lemma step_inv2 : forall ms d0 s e s', inv2 ms d0 s -> step ms s e = Some s' -> inv2 ms d0 s'.
+Proof.
+  intros ms d0 s e s' I Hs.
+  destruct I as [Iids Ink Ina Inf Ika Ikf Iaf Ihk Iha Ihf].
+  destruct e as [i|i|i]; cbn [step] in Hs.
+  - destruct (started i s) eqn:St; [discriminate|].
+    apply started_false in St. destruct St as [Sk [Sa Sf]].
+    destruct (nth_error ms i) as [m|] eqn:Nm; [|discriminate].
+    destruct (read (s_db s) m) as [p|] eqn:Rd; inversion Hs; subst s'; clear Hs.
+    + assert (Hr : has_row ms d0 i = true).
+      { rewrite <- (has_row_ids ms (s_db s) d0 i Iids). unfold has_row. rewrite Nm.
+        destruct (find_row (m_row m) (s_db s)) eqn:F; [reflexivity|].
+        apply read_none_iff in F. congruence. }
+      constructor; cbn [s_db s_pend s_acked s_failed map fst]; auto.
+      * constructor; assumption.
+      * intros j [<-|Hj]; auto.
+      * intros j [<-|Hj]; auto.
+      * intros j [<-|Hj]; auto.
+    + assert (Hr : has_row ms d0 i = false).
+      { rewrite <- (has_row_ids ms (s_db s) d0 i Iids). unfold has_row. rewrite Nm.
+        apply read_none_iff in Rd. rewrite Rd. reflexivity. }
+      constructor; cbn [s_db s_pend s_acked s_failed]; auto.
+      * apply nodup_snoc; assumption.
+      * intros j Hj H. apply in_app_or in H. destruct H as [H|[<-|[]]]; [eapply Ikf; eauto | contradiction].
+      * intros j Hj H. apply in_app_or in H. destruct H as [H|[<-|[]]]; [eapply Iaf; eauto | contradiction].
+      * intros j H. apply in_app_or in H. destruct H as [H|[<-|[]]]; [auto|]. split; [assumption | congruence].
+  - destruct (memn i (s_failed s)); [inversion Hs; subst; constructor; auto|].
+    destruct (memn i (map fst (s_pend s)) && negb (memn i (s_fifo s))); [|discriminate].
+    inversion Hs; subst s'; constructor; cbn [s_db s_pend s_acked s_failed]; auto.
+  - destruct (memn i (s_failed s)); [inversion Hs; subst; constructor; auto|].
+    destruct (s_fifo s) as [|j rest]; [discriminate|].
+    destruct (Nat.eqb i j); [|discriminate].
+    destruct (lookup i (s_pend s)) as [p|] eqn:Lk; [|discriminate].
+    inversion Hs; subst s'; clear Hs. apply lookup_In in Lk.
+    assert (Ki : In i (map fst (s_pend s))) by (apply in_map_iff; exists (i, p); auto).
+    constructor; cbn [s_db s_pend s_acked s_failed]; try rewrite keys_remove_key.
+    + rewrite ids_write. assumption.
+    + unfold remove_nat. apply NoDup_filter. assumption.
+    + apply nodup_snoc; auto.
+    + assumption.
+    + intros k Hk H. apply In_remove_nat in Hk. destruct Hk as [Hk Hne].
+      apply in_app_or in H. destruct H as [H|[H|[]]]; [eapply Ika; eauto | congruence].
+    + intros k Hk. apply In_remove_nat in Hk. apply Ikf, Hk.
+    + intros k H. apply in_app_or in H. destruct H as [H|[<-|[]]]; auto.
+    + intros k Hk. apply In_remove_nat in Hk. apply Ihk, Hk.
+    + intros k H. apply in_app_or in H. destruct H as [H|[<-|[]]]; auto.
+    + assumption.
+Qed.
+
+Lemma run_inv2 : forall ms d0 sigma s s', inv2 ms d0 s -> run ms s sigma = Some s' -> inv2 ms d0 s'.
+Proof.
+  induction sigma as [|e t IH]; intros s s' I Hr; cbn [run] in Hr.
+  - inversion Hr; subst; assumption.
+  - destruct (step ms s e) as [s1|] eqn:Hs; [|discriminate].
+    eapply IH; [eapply step_inv2; eauto | exact Hr].
+Qed.
+
+(* --- a mutation whose Write is in the schedule ends acknowledged or failed --- *)
+Lemma step_mono : forall ms s e s', step ms s e = Some s' ->
+  incl (s_acked s) (s_acked s') /\ incl (s_failed s) (s_failed s').
+Proof.
+  intros ms s e s' Hs. destruct e as [i|i|i]; cbn [step] in Hs.
+  - destruct (started i s); [discriminate|]. destruct (nth_error ms i); [|discriminate].
+    destruct (read (s_db s) m); inversion Hs; subst; cbn [s_acked s_failed]; split;
+      try apply incl_refl. apply incl_appl, incl_refl.
+  - destruct (memn i (s_failed s)); [inversion Hs; subst; split; apply incl_refl|].
+    destruct (_ && _); [|discriminate]. inversion Hs; subst; split; apply incl_refl.
+  - destruct (memn i (s_failed s)); [inversion Hs; subst; split; apply incl_refl|].
+    destruct (s_fifo s) as [|j rest]; [discriminate|]. destruct (Nat.eqb i j); [|discriminate].
+    destruct (lookup i (s_pend s)); [|discriminate]. inversion Hs; subst; cbn [s_acked s_failed].
+    split; [apply incl_appl|]; apply incl_refl.
+Qed.
+Lemma run_mono : forall ms sigma s s', run ms s sigma = Some s' ->
+  incl (s_acked s) (s_acked s') /\ incl (s_failed s) (s_failed s').
+Proof.
+  induction sigma as [|e t IH]; intros s s' Hr; cbn [run] in Hr.
+  - inversion Hr; subst; split; apply incl_refl.
+  - destruct (step ms s e) as [s1|] eqn:Hs; [|discriminate].
+    apply step_mono in Hs. apply IH in Hr. destruct Hs, Hr. split; eapply incl_tran; eauto.
+Qed.
+Lemma step_W : forall ms s i s', step ms s (W i) = Some s' -> In i (s_acked s') \/ In i (s_failed s').
+Proof.
+  intros ms s i s' Hs. cbn [step] in Hs.
+  destruct (memn i (s_failed s)) eqn:Mf; [inversion Hs; subst; right; apply memn_In; assumption|].
+  destruct (s_fifo s) as [|j rest]; [discriminate|]. destruct (Nat.eqb i j); [|discriminate].
+  destruct (lookup i (s_pend s)); [|discriminate]. inversion Hs; subst; cbn [s_acked].
+  left. apply in_or_app. right. left. reflexivity.
+Qed.
+Lemma run_W : forall ms sigma s s' i, run ms s sigma = Some s' -> In (W i) sigma ->
+  In i (s_acked s') \/ In i (s_failed s').
+Proof.
+  induction sigma as [|e t IH]; intros s s' i Hr Hin; [destruct Hin|]. cbn [run] in Hr.
+  destruct (step ms s e) as [s1|] eqn:Hs; [|discriminate].
+  destruct Hin as [->|Hin]; [|eapply IH; eauto].
+  apply step_W in Hs. apply run_mono in Hr. destruct Hr as [Ha Hf].
+  destruct Hs as [H|H]; [left; apply Ha, H | right; apply Hf, H].
+Qed.
+
+Lemma complete_W : forall n sigma i, complete n sigma = true -> (i < n)%nat -> In (W i) sigma.
+Proof.
+  intros n sigma i Hc Hi. unfold complete in Hc. rewrite forallb_forall in Hc.
+  assert (Hs : In i (seq 0 n)) by (apply in_seq; lia).
+  specialize (Hc i Hs). apply Bool.andb_true_iff in Hc. destruct Hc as [_ Hc].
+  apply existsb_exists in Hc. destruct Hc as [e [He Eq]].
+  destruct e as [j|j|j]; cbn [ev_eqb] in Eq; try discriminate.
+  apply Nat.eqb_eq in Eq. subst j. assumption.
+Qed.
+
+(* --- the serial schedule of an order --- *)
+Lemma windows_ok_serial : forall ms pi, windows_ok ms [] (serial_sched pi) = true.
+Proof.
+  induction pi as [|i t IH]; [reflexivity|].
+  unfold serial_sched. cbn [flat_map app windows_ok forallb andb remove_nat filter].
+  rewrite Nat.eqb_refl. cbn [negb]. exact IH.
+Qed.
+
+Lemma run_app : forall ms l1 l2 s,
+  run ms s (l1 ++ l2) = match run ms s l1 with Some s1 => run ms s1 l2 | None => None end.
+Proof.
+  induction l1 as [|e t IH]; intros l2 s; cbn [app run]; [reflexivity|].
+  destruct (step ms s e); [apply IH | reflexivity].
+Qed.
+
+Lemma serial_one_ok : forall ms d a f i m p,
+  memn i a = false -> memn i f = false -> nth_error ms i = Some m -> read d m = Some p ->
+  run ms {| s_db := d; s_pend := []; s_fifo := []; s_acked := a; s_failed := f |} [R i; V i; W i]
+  = Some {| s_db := write p d; s_pend := []; s_fifo := []; s_acked := a ++ [i]; s_failed := f |}.
+Proof.
+  intros ms d a f i m p Ha Hf Nm Rd.
+  cbn [run]. unfold step at 1. unfold started. cbn [s_pend s_acked s_failed s_db map memn orb].
+  rewrite Ha, Hf, Nm, Rd. cbn [orb].
+  unfold step at 1. cbn [s_pend s_acked s_failed s_db s_fifo map fst memn].
+  rewrite Hf, Nat.eqb_refl. cbn [orb andb negb app].
+  unfold step at 1. cbn [s_pend s_acked s_failed s_db s_fifo lookup].
+  rewrite Hf, Nat.eqb_refl. unfold remove_key. cbn [filter fst]. rewrite Nat.eqb_refl. cbn [negb].
+  reflexivity.
+Qed.
+Lemma serial_one_fail : forall ms d a f i m,
+  memn i a = false -> memn i f = false -> nth_error ms i = Some m -> read d m = None ->
+  run ms {| s_db := d; s_pend := []; s_fifo := []; s_acked := a; s_failed := f |} [R i; V i; W i]
+  = Some {| s_db := d; s_pend := []; s_fifo := []; s_acked := a; s_failed := f ++ [i] |}.
+Proof.
+  intros ms d a f i m Ha Hf Nm Rd.
+  assert (Hfi : memn i (f ++ [i]) = true) by (apply memn_In, in_or_app; right; left; reflexivity).
+  cbn [run]. unfold step at 1. unfold started. cbn [s_pend s_acked s_failed s_db map memn orb].
+  rewrite Ha, Hf, Nm, Rd. cbn [orb].
+  unfold step at 1. cbn [s_failed]. rewrite Hfi.
+  unfold step at 1. cbn [s_failed]. rewrite Hfi.
+  reflexivity.
+Qed.
+
+Lemma serial_run : forall ms d0 pi d a f,
+  ids d = ids d0 -> NoDup pi ->
+  (forall i, In i pi -> ~ In i a /\ ~ In i f /\ nth_error ms i <> None) ->
+  exists s', run ms {| s_db := d; s_pend := []; s_fifo := []; s_acked := a; s_failed := f |} (serial_sched pi) = Some s' /\
+             s_acked s' = a ++ filter (has_row ms d0) pi.
+Proof.
+  induction pi as [|i t IH]; intros d a f Hids Hnd Hfresh.
+  - eexists. cbn [serial_sched flat_map run filter]. rewrite app_nil_r. split; reflexivity.
+  - inversion Hnd as [|? ? Hni Hnt]; subst.
+    destruct (Hfresh i (or_introl eq_refl)) as [Ha [Hf Hm]].
+    destruct (nth_error ms i) as [m|] eqn:Nm; [|congruence].
+    apply memn_false in Ha. apply memn_false in Hf.
+    change (serial_sched (i :: t)) with ([R i; V i; W i] ++ serial_sched t).
+    rewrite run_app.
+    assert (Hhr : has_row ms d0 i = match read d m with Some _ => true | None => false end).
+    { rewrite <- (has_row_ids ms d d0 i Hids). unfold has_row, read. rewrite Nm.
+      destruct (find_row (m_row m) d); reflexivity. }
+    destruct (read d m) as [p|] eqn:Rd.
+    + rewrite (serial_one_ok ms d a f i m p Ha Hf Nm Rd).
+      destruct (IH (write p d) (a ++ [i]) f) as [s' [Hr Hacc]].
+      * rewrite ids_write. assumption.
+      * assumption.
+      * intros k Hk. destruct (Hfresh k (or_intror Hk)) as [Ka [Kf Km]]. split; [|auto].
+        intros H. apply in_app_or in H. destruct H as [H|[H|[]]]; [contradiction | subst; contradiction].
+      * exists s'. split; [exact Hr|]. rewrite Hacc. cbn [filter]. rewrite Hhr.
+        rewrite <- app_assoc. reflexivity.
+    + rewrite (serial_one_fail ms d a f i m Ha Hf Nm Rd).
+      destruct (IH d a (f ++ [i])) as [s' [Hr Hacc]]; auto.
+      * intros k Hk. destruct (Hfresh k (or_intror Hk)) as [Ka [Kf Km]]. split; [auto|]. split; [|auto].
+        intros H. apply in_app_or in H. destruct H as [H|[H|[]]]; [contradiction | subst; contradiction].
+      * exists s'. split; [exact Hr|]. rewrite Hacc. cbn [filter]. rewrite Hhr. reflexivity.
+Qed.
+
+Lemma filter_all : forall A (f : A -> bool) l, (forall x, In x l -> f x = true) -> filter f l = l.
+Proof.
+  induction l as [|a t IH]; intros H; cbn [filter]; [reflexivity|].
+  rewrite (H a (or_introl eq_refl)), IH; [reflexivity | intros; apply H; right; assumption].
+Qed.
+Lemma filter_none : forall A (f : A -> bool) l, (forall x, In x l -> f x = false) -> filter f l = [].
+Proof.
+  induction l as [|a t IH]; intros H; cbn [filter]; [reflexivity|].
+  rewrite (H a (or_introl eq_refl)). apply IH. intros; apply H; right; assumption.
+Qed.
+
+Lemma zlist_eqb_refl : forall l, zlist_eqb l l = true.
+Proof.
+  unfold zlist_eqb. induction l as [|a t IH]; cbn [list_eqb]; [reflexivity|].
+  rewrite Z.eqb_refl, IH. reflexivity.
+Qed.
+
+(* outside the known class: a complete schedule without overlapping windows on one row
+   reaches, with the same acknowledgements, the state of one of the serial orders; stated on the
+   functions the harness evaluates *)
+Theorem outside_known : forall d nf ms sigma b,
+  known_C16 (CSched d nf ms sigma b) = [] ->
+  complete (length ms) sigma = true ->
+  run_sched d ms sigma <> None ->
+  spec_C16 (CSched d nf ms sigma b) (run_C16 (CSched d nf ms sigma b)) = true.
+Proof.
+  intros d nf ms sigma b Hk Hc Hr.
+  cbn [known_C16] in Hk. destruct (windows_ok ms [] sigma) eqn:Hw; [|discriminate]. clear Hk.
+  destruct (run_sched d ms sigma) as [s|] eqn:Hrun; [|congruence]. clear Hr.
+  unfold spec_C16, run_C16.
+  rewrite split_join by (pose proof (join_length (run_chunks (CSched d nf ms sigma b))); lia).
+  cbn [run_chunks]. rewrite Hrun. cbn [spec_chunks]. rewrite map_length, Nat.eqb_refl. cbn [andb].
+  pose proof (serial_ok d ms sigma s Hrun Hw) as Hdb.
+  unfold run_sched in Hrun.
+  pose proof (run_inv2 ms d sigma (init d) s (inv2_init ms d) Hrun) as I2.
+  destruct I2 as [_ _ Ina Inf _ _ Iaf _ Iha Ihf].
+  set (pi := s_acked s ++ s_failed s).
+  assert (Hperm : Permutation (seq 0 (length ms)) pi).
+  { apply NoDup_Permutation; [apply seq_NoDup | apply nodup_app2; assumption |].
+    intros i. split; intros Hi.
+    - apply in_seq in Hi. apply in_or_app.
+      eapply run_W; [exact Hrun | eapply complete_W; [exact Hc | lia]].
+    - apply in_seq. cbn. split; [lia|]. apply nth_error_Some.
+      apply in_app_or in Hi. destruct Hi as [Hi|Hi].
+      + specialize (Iha i Hi). unfold has_row in Iha. destruct (nth_error ms i); [discriminate | discriminate].
+      + apply Ihf, Hi. }
+  assert (Hnd : NoDup pi) by (apply nodup_app2; assumption).
+  destruct (serial_run ms d pi d [] [] eq_refl Hnd) as [s' [Hs' Hacc]].
+  { intros i Hi. split; [intros []|]. split; [intros []|].
+    apply nth_error_Some. eapply Permutation_in in Hi; [|apply Permutation_sym, Hperm].
+    apply in_seq in Hi. lia. }
+  cbn [app] in Hacc. fold (init d) in Hs'.
+  assert (Hacc' : s_acked s' = s_acked s).
+  { rewrite Hacc. unfold pi. rewrite filter_app, filter_all, filter_none, app_nil_r; auto.
+    intros i Hi. apply Ihf, Hi. }
+  assert (Hdb' : s_db s' = s_db s).
+  { rewrite (serial_ok d ms (serial_sched pi) s' Hs' (windows_ok_serial ms pi)), Hacc', <- Hdb. reflexivity. }
+  apply existsb_exists. exists (outcome (length ms) nf s). split; [|apply zlist_eqb_refl].
+  apply in_map_iff. exists pi. split; [|apply perms_complete, Hperm].
+  unfold serial_outcome, run_sched. rewrite Hs'. unfold outcome. rewrite Hacc', Hdb'. reflexivity.
+Qed.
+
+(* ------------------------------------------------------------------ refutation witnesses (closed terms) *)
+Definition wit_row : row :=
+  {| r_id := 1%N; r_room := Some 1%N; r_mdate := 0; r_fields := [(0%N, 1); (1%N, 2)] |}.
+Definition wit_db : db :=
+  {| rows := [wit_row]; edges := [mk_edge 1%N 0%N 0%N 0; mk_edge 1%N 1%N 0%N 0] |}.
+Definition mut (room : option N) (date : Z) (a : list (N * Z)) (r : list refop) : mutation :=
+  {| m_row := 1%N; m_date := date; m_room := room; m_assign := a; m_refs := r |}.
+(* R1 R2 V1 W1 V2 W2 *)
+Definition wit_sigma : list ev := [R 0; R 1; V 0; W 0; V 1; W 1]%nat.
+
+Definition wit_fields : list mutation := [mut None 1000 [(0%N, 11)] []; mut None 2000 [(1%N, 22)] []].
+Definition wit_refs : list mutation := [mut None 1000 [] [RSet 1%N 1%N]; mut None 2000 [] [RSet 1%N 2%N]].
+Definition wit_room : list mutation := [mut (Some 2%N) 1000 [(0%N, 11)] []; mut None 2000 [(1%N, 22)] []].
+
+Ltac two_orders H :=
+  apply perms_complete in H; cbn in H;
+  destruct H as [<-|[<-|[]]]; vm_compute; discriminate.
+
+(* m1 assigns field 0, m2 assigns field 1 of one row: both are acknowledged, the final row has
+   m2's field 1 and the OLD field 0; no serial order gives that state *)
+Lemma refuted_fields :
+  let c := CSched wit_db 3%N wit_fields wit_sigma false in
+  known_C16 c = [1] /\ complete 2 wit_sigma = true /\
+  (exists s, run_sched wit_db wit_fields wit_sigma = Some s /\ s_acked s = [0; 1]%nat /\
+     (exists r, find_row 1%N (s_db s) = Some r /\
+                get_field 0%N (r_fields r) = Some 1 /\ get_field 1%N (r_fields r) = Some 22) /\
+     (forall pi, Permutation [0; 1]%nat pi ->
+                 obs_db 3%N (fold_left (apply wit_fields) pi wit_db) <> obs_db 3%N (s_db s))) /\
+  spec_C16 c (run_C16 c) = false.
+Proof.
+  cbv zeta. split; [vm_compute; reflexivity|]. split; [vm_compute; reflexivity|]. split; [|vm_compute; reflexivity].
+  eexists. split; [vm_compute; reflexivity|]. split; [reflexivity|]. split.
+  - eexists. split; [vm_compute; reflexivity|]. split; reflexivity.
+  - intros pi HP. two_orders HP.
+Qed.
+
+(* two replacements of a single-valued reference (owner:{id:t1} and owner:{id:t2}): both
+   acknowledged, the row ends with TWO owners; every serial order leaves one *)
+Lemma refuted_reference :
+  let c := CSched wit_db 3%N wit_refs wit_sigma false in
+  known_C16 c = [1] /\ complete 2 wit_sigma = true /\
+  (exists s, run_sched wit_db wit_refs wit_sigma = Some s /\ s_acked s = [0; 1]%nat /\
+     length (get_edges 1%N (edges_of 1%N (s_db s))) = 2%nat /\
+     (forall pi, Permutation [0; 1]%nat pi ->
+                 length (get_edges 1%N (edges_of 1%N (fold_left (apply wit_refs) pi wit_db))) = 1%nat)) /\
+  spec_C16 c (run_C16 c) = false.
+Proof.
+  cbv zeta. split; [vm_compute; reflexivity|]. split; [vm_compute; reflexivity|]. split; [|vm_compute; reflexivity].
+  eexists. split; [vm_compute; reflexivity|]. split; [reflexivity|]. split; [vm_compute; reflexivity|].
+  intros pi HP. apply perms_complete in HP. cbn in HP. destruct HP as [<-|[<-|[]]]; vm_compute; reflexivity.
+Qed.
+
+(* a move to room 2 (with an assignment) racing a field update: both acknowledged, the row is
+   still in room 1 and the moved mutation's assignment is gone *)
+Lemma refuted_room_move :
+  let c := CSched wit_db 3%N wit_room wit_sigma false in
+  known_C16 c = [1] /\ complete 2 wit_sigma = true /\
+  (exists s, run_sched wit_db wit_room wit_sigma = Some s /\ s_acked s = [0; 1]%nat /\
+     (exists r, find_row 1%N (s_db s) = Some r /\ r_room r = Some 1%N /\ get_field 0%N (r_fields r) = Some 1) /\
+     (forall pi, Permutation [0; 1]%nat pi ->
+                 exists r, find_row 1%N (fold_left (apply wit_room) pi wit_db) = Some r /\ r_room r = Some 2%N)) /\
+  spec_C16 c (run_C16 c) = false.
+Proof.
+  cbv zeta. split; [vm_compute; reflexivity|]. split; [vm_compute; reflexivity|]. split; [|vm_compute; reflexivity].
+  eexists. split; [vm_compute; reflexivity|]. split; [reflexivity|]. split.
+  - eexists. split; [vm_compute; reflexivity|]. split; reflexivity.
+  - intros pi HP. apply perms_complete in HP. cbn in HP.
+    destruct HP as [<-|[<-|[]]]; eexists; (split; [vm_compute; reflexivity | reflexivity]).
+Qed.
+
+(* the hypotheses of outside_known are satisfiable by a schedule that is not serial: windows of
+   mutations on different rows overlap, the two mutations of row 1 do not *)
+Definition nv_db : db :=
+  {| rows := [wit_row; {| r_id := 2%N; r_room := None; r_mdate := 0; r_fields := [(2%N, 6)] |}];
+     edges := [mk_edge 1%N 1%N 0%N 0] |}.
+Definition nv_ms : list mutation :=
+  [mut None 1000 [(0%N, 11)] [RSet 1%N 2%N];
+   {| m_row := 2%N; m_date := 2000; m_room := None; m_assign := [(0%N, 22)]; m_refs := [RAdd 0%N [1%N]] |};
+   mut (Some 2%N) 3000 [(1%N, 33)] [RClear 1%N]].
+Definition nv_sigma : list ev := [R 0; R 1; V 1; V 0; W 1; W 0; R 2; V 2; W 2]%nat.
+Lemma nonvacuous :
+  let c := CSched nv_db 3%N nv_ms nv_sigma false in
+  known_C16 c = [] /\ complete (length nv_ms) nv_sigma = true /\ run_sched nv_db nv_ms nv_sigma <> None /\
+  windows_ok nv_ms [] [R 0; R 2; V 0; W 0; V 2; W 2]%nat = false.
+Proof.
+  cbv zeta. split; [vm_compute; reflexivity|]. split; [vm_compute; reflexivity|].
+  split; [vm_compute; discriminate | vm_compute; reflexivity].
+Qed.
+
+(* ------------------------------------------------------------------ the statement at full strength, and its refutation *)
+Definition full_statement : Prop :=
+  forall d ms sigma s,
+    run_sched d ms sigma = Some s -> complete (length ms) sigma = true ->
+    exists pi, Permutation (s_acked s) pi /\ s_db s = fold_left (apply ms) pi d.
+
+Lemma full_refuted : ~ full_statement.
+Proof.
+  intros H. destruct refuted_fields as [_ [Hc [[s [Hr [Ha [_ Hno]]]] _]]].
+  destruct (H wit_db wit_fields wit_sigma s Hr Hc) as [pi [HP Hdb]].
+  rewrite Ha in HP. apply (Hno pi HP). rewrite Hdb. reflexivity.
+Qed.
+
+Lemma other_rows_frame : forall d m mo p,
+  read d mo = Some p -> m_row mo <> m_row m -> read (write p d) m = read d m.
+Proof.
+  intros d m mo p Hr Hne. destruct (read_wf d mo p Hr) as [Hwf Hrow].
+  apply read_write_frame; [assumption | congruence].
 Qed.
